@@ -12,6 +12,7 @@
 #include "c09.hpp"
 #include "c10.hpp"
 #include "c11.hpp"
+#include "c12.hpp"
 #include "c13.hpp"
 #include "c15.hpp"
 #include "c16.hpp"
